@@ -108,6 +108,18 @@ def run_check(prop: str, tier: str, seed: int) -> int:
             undischarged.append((t, f'uses axioms {sorted(set(ax) - core.ALLOWED_AXIOMS)}'))
     if forbidden:
         undischarged.append(('<audit>', 'forbidden tokens: ' + '; '.join(forbidden[:5])))
+    leanchecker = None
+    if tier == 'thorough' and mod_ok and theorems:
+        # independent re-check of the compiled .olean files of the property modules
+        import subprocess
+        try:
+            lc = subprocess.run(['lake', 'env', 'leanchecker'] + lean_modules, cwd=core.LEAN, capture_output=True, text=True, timeout=1800)
+            leanchecker = dict(rc=lc.returncode, tail=(lc.stdout + lc.stderr)[-300:])
+            if lc.returncode != 0:
+                undischarged.append(('<leanchecker>', leanchecker['tail']))
+        except Exception as e:
+            leanchecker = dict(rc=None, tail=f'{type(e).__name__}: {e}')
+        print(f'[{prop}] leanchecker: {leanchecker}')
     if not build.extract_ok:
         undischarged.append(('<translator>', build.extract_msg))
     discharged = len(theorems) - len([u for u in undischarged if not u[0].startswith('<')])
@@ -183,7 +195,7 @@ def run_check(prop: str, tier: str, seed: int) -> int:
         traces_validated_against_impl=out.traces_validated,
         distribution=out.distribution, skipped=out.skipped,
         disagreements=len(out.disagreements), spec_failures=len(out.spec_failures),
-        known_findings_reproduced=reproduced, gen_changed=build.gen_changed,
+        known_findings_reproduced=reproduced, gen_changed=build.gen_changed, leanchecker=leanchecker,
         notes=out.notes, **out.extra)
     if infra_error:
         cov['infrastructure_error'] = infra_error
